@@ -1,5 +1,5 @@
 (* PropC04.v — property C04: exact class lookup, unambiguous method lookup. *)
-From PG Require Import Base Mapping Spec Mapper CacheWriter CacheReader MapperProofs WriterInv CacheProofs.
+From PG Require Import Base Mapping Spec Mapper CacheWriter CacheReader MapperProofs Domain WriterInv CacheProofs.
 
 Theorem C04_class_mapper : forall ix rs c, wf_class_names rs = true ->
   m_remap_class (build ix rs) c = Sclass rs c.
